@@ -50,7 +50,7 @@ def _strip_e(s):
 
 def spec_signature(key, impl, spec, lines):
     """same signatures as the Go-side oracle (c16.go c16WalkSig / c16GlobCase)"""
-    tag = '@' + key.split('#')[1] if '#' in key else ''
+    tag = ''   # S lines exist for the first variant of a case only (plain MemMapFs, or BasePathFs for r-kinds)
     k = _kind(lines)
     if k in ('walk', 'rwalk'):
         a, s = impl.split(' r='), spec.split(' r=')
